@@ -492,7 +492,9 @@ func (c *c07Case) expect() c07Expect {
 // type's own profile member make the typed decoding itself fail.
 func (c *c07Case) viewBroken(sel *regProf) bool {
 	if c.Format != "json" {
-		return false
+		// CBOR: a non-text psa-profile (-75000) is a wrong-typed claim of a
+		// profile-1 style token; for every other profile it is an unknown key
+		return sel.Base == P1 && c.S1.Kind == "nontext"
 	}
 	if sel.Base == P1 && c.S1.Kind == "nontext" {
 		return true
@@ -830,7 +832,7 @@ func TestC07_Dispatch(t *testing.T) {
 		natural := genBool.Draw(t, "natural")
 		textKinds := []string{"absent", "absent", "name", "name", "name", "empty", "null", "nontext"}
 		if c.Format != "json" {
-			c.S1 = drawSlot(t, "s1", []string{"absent", "absent", "name", "empty"})
+			c.S1 = drawSlot(t, "s1", []string{"absent", "absent", "name", "empty", "nontext", "null"})
 			c.S2 = drawSlot(t, "s2", append(textKinds, "undefined", "name", "name"))
 			if rapid.IntRange(0, 9).Draw(t, "s2.oid") == 0 {
 				c.S2 = slotVal{Kind: "oid", Name: rapid.SampledFrom([]string{InhP2OID, InhP2OID, "1.3.6.1.4.1.4128.100.3", "2.999.1"}).Draw(t, "s2.oidname")}
